@@ -898,10 +898,29 @@ impl Callbacks for Dump {
             Err(_) => return Compilation::Continue,
         };
         // Phase 1: clone every body before anything (const eval, later passes) steals it.
+        // Constants first: building a function body may const-evaluate an associated constant (a range pattern
+        // `0..=Self::MAX`, an array length), which runs that constant through the later MIR passes and steals its
+        // `mir_built`. A body that was stolen all the same is left out (never a function of the crate).
         let mut bodies: Vec<(LocalDefId, Body<'tcx>)> = Vec::new();
-        for def in tcx.hir_body_owners() {
-            let b = tcx.mir_built(def).borrow().clone();
-            bodies.push((def, b));
+        let owners: Vec<LocalDefId> = tcx.hir_body_owners().collect();
+        let is_const = |d: LocalDefId| {
+            matches!(
+                tcx.def_kind(d.to_def_id()),
+                DefKind::Const { .. } | DefKind::AssocConst { .. } | DefKind::AnonConst | DefKind::InlineConst | DefKind::Static { .. }
+            )
+        };
+        for pass in 0..2 {
+            for &def in &owners {
+                if is_const(def) != (pass == 0) {
+                    continue;
+                }
+                let steal = tcx.mir_built(def);
+                if steal.is_stolen() {
+                    continue;
+                }
+                let b = steal.borrow().clone();
+                bodies.push((def, b));
+            }
         }
         // Phase 2: serialise.
         let cx = Cx { tcx };
